@@ -535,8 +535,14 @@ impl Memfs {
                     // Update mode as directed
                     dst.set_mode(file_mode.or(Some(src.mode())));
 
-                    // Add the new dst entry to the filesystem
+                    // Add the new dst entry to the filesystem, an existing file that gets
+                    // overwritten takes over the permissions as well just as fs::copy does
                     self._add(guard, dst)?;
+                    if let Some(entry) = guard.get_entry_mut(&dst_path) {
+                        if !entry.is_symlink() {
+                            entry.set_mode(file_mode.or(Some(src.mode())));
+                        }
+                    }
 
                     // Copy the src file over as well
                     if !src.is_symlink() {
